@@ -556,7 +556,7 @@ func main() {
 		Level:    "exploration",
 		Rule: "exhaustive: the full grid of 324 server configurations (2x2x9x9) x 360 single offers (2x2x9x10) = 116640 negotiations by fresh negotiators, each accepted answer parsed and checked against RFC 7692 §7.1 legality (ref.PMCEIllegal); all malformed parameter lists (unknown names incl. near misses of the defined ones by letter case / separator / a trailing character, each parameter duplicated same/value-then-bare/bare-then-value/different, values {7,16,0,255,abc,'1 5',-8,8.0,10^20-1, valid+k*2^64/2^32/2^16/2^8, +8, 0xA, 1e1, '10.', 1_0, non-ASCII digits}, value on a flag, no value on server_max_window_bits) alone and embedded among valid parameters x 47 configurations must yield an error from Negotiate and Parse, and through the real ws.Upgrader header path (alone, followed / preceded by other extensions in the same or another header line) must fail the handshake without a 101; Parse/Option inverse for all 360 parameter sets through the wire text. " +
 			"sampled: lists of up to 3 offers (+ non-deflate extensions in between) negotiated by one negotiator directly and through the real ws.Upgrader header path (single header and repeated headers, more header lines behind the offers, read buffers 64..512 and chunked delivery so that the read buffer is refilled after the offers were seen): at most one accepted, it is the first one a fresh negotiator accepts alone, its answer is legal, Accepted() reports it; negotiators after 1-4 negotiations (accept/decline/parse error/foreign extension) + Reset vs new ones. distinct = (config, offer class) etc.",
-		Assumptions: []string{"ref.PMCEIllegal transcribes RFC 7692 §7.1.1-7.1.2 / the clauses of the statement", "declining an acceptable offer is not a violation", "leading zeros in window values are left open"},
+		Assumptions: []string{"parameter names are compared as written: RFC 7692 defines the four names in lower case and RFC 6455 gives extension parameters no case folding, so a name differing by letter case is an undefined parameter", "ref.PMCEIllegal transcribes RFC 7692 §7.1.1-7.1.2 / the clauses of the statement", "declining an acceptable offer is not a violation", "leading zeros in window values are left open"},
 		Subs:        []mon.Sub{subGrid(), subLists(), subMalformed(), subInverse(), subReset()},
 	})
 }
